@@ -11,26 +11,48 @@ from fractions import Fraction
 import numpy as np
 from .. import common
 from ..common import close
+from . import c01, c02
 
 LEVEL = "proof"
-RULE = ("triples of diagrams with 0..N points (N=60 quick, 300 thorough; sizes 0,1,2 always included), coordinates from "
-        "lattice/half/dyadic/decimal/uniform modes with duplicates and diagonal points; every law of the statement is "
-        "evaluated for both distances on each triple; non-trivial = at least two of the three diagrams have >= 3 points; "
-        "distinct by digest of the triple")
-ASSUMPTIONS = ["laws on the real code are compared with tolerance 1e-9*scale (bottleneck) / 1e-9*scale*(n+1) (Wasserstein; was 1e-6 before the /repo fix of "
-               "sklearn's expanded Euclidean formula, repaired in wasserstein.py)",
+RULE = ("triples of diagrams with 0..N points (N=60 quick, 300 thorough; sizes 0,1,2 always included; the first two triples of "
+        "every run have 100+ points per diagram — one independent, one related), coordinates from lattice/half/dyadic/decimal/"
+        "uniform modes with duplicates and diagonal points, one power-of-two scale per triple; one triple in seven is 'large "
+        "offset, tiny spread' (a diagram and two successive perturbations by delta, all translated by T = 1e3..1e6 feature "
+        "sizes, delta/T ~ 1e-8); every law of the statement is evaluated for both distances on each triple; non-trivial = at "
+        "least two of the three diagrams have >= 3 points; distinct by digest of the triple.  Certified pairs: related and "
+        "independent pairs of exactly m+n points, (6,6) (12,10) (30,30) (80,60) x3 and one (120,110) quick; x6 plus (150,150) "
+        "(150,10) thorough — each for BOTH distances")
+ASSUMPTIONS = ["laws on the real code are compared with tolerance 1e-9*scale (bottleneck) / 1e-9*scale*(n+1) (Wasserstein), scale = largest "
+               "|coordinate| (not floored at 1); the Wasserstein cost matrix is np.sqrt of summed squared coordinate differences (since /repo fix "
+               "6c9bac1 — before it, sklearn's expanded formula needed 1e-6 and broke translation invariance at large offsets)",
+               "certified pairs: bottleneck value compared exactly (lattice/half/dyadic inputs) with the optimum certified by C01's cert.opt; "
+               "Wasserstein value within 1e-9*scale*rows of the optimum of the model's matrix certified by C02's cert.dual (exact rational dual "
+               "potentials verified in Lean)",
                "the theorems are about the specification values; that the code computes them is C01/C02"]
+# the theorems that carry clauses of the property statement: every law, for the specification values (C07.lean) and for what
+# the models of the code return (C07Model.lean); the other obligations are facts about the two cost systems (linf_*, euclid_*,
+# diag*_*), the generic matching laws they instantiate (Lemmas/MatchingLaws, MatchingReindex, PermEquiv) and bridges
+_SPEC_LAWS = ["symm", "nonneg", "reorder_zero", "add_diagonal", "translate", "scale", "vs_empty", "triangle_ineq"]
+CORE_THEOREMS = (["PersimVerif.C07.bottleneck_" + x for x in _SPEC_LAWS] + ["PersimVerif.C07.wasserstein_" + x for x in _SPEC_LAWS]
+                 + ["PersimVerif.C07.bottleneck_le_wasserstein", "PersimVerif.C07.bottleneck_perm_zero_list",
+                    "PersimVerif.C07.wasserstein_perm_zero_list"]
+                 + ["PersimVerif.C07.model_bn_" + x for x in ("symm", "oracle_irrelevant", "triangle", "nonneg", "perm_invariant",
+                                                              "reorder_zero", "add_diagonal", "add_diagonal_left", "translate",
+                                                              "scale", "vs_empty")]
+                 + ["PersimVerif.C07.model_ws_" + x for x in ("symm", "triangle", "nonneg", "perm_invariant", "reorder_zero",
+                                                              "add_diagonal", "add_diagonal_left", "translate", "scale", "vs_empty")]
+                 + ["PersimVerif.C07.model_bn_le_ws"])
 PROP_FILES = ["PersimVerif/Props/C07.lean", "PersimVerif/Props/C07Model.lean", "PersimVerif/Lemmas/MatchingLaws.lean",
-              "PersimVerif/Lemmas/PermEquiv.lean"]
+              "PersimVerif/Lemmas/PermEquiv.lean", "PersimVerif/Lemmas/MatchingReindex.lean"]
 
 
 def A(d):
     return np.array(d, dtype=float).reshape(-1, 2)
 
 
-def gen_dgm(ctx, nmax, mode=None):
+def gen_dgm(ctx, nmax, mode=None, exact_n=False):
     r = ctx.rng
-    n = r.choice([0, 1, 2, r.randint(0, nmax), r.randint(0, nmax), nmax])
+    n = nmax if exact_n else r.choice([0, 1, 2, r.randint(0, nmax), r.randint(0, nmax), r.randint(min(3, nmax), nmax), nmax])
     mode = mode or ctx.gen.mode()
     pts = []
     for _ in range(n):
@@ -75,18 +97,33 @@ def hashseed_values(cases, seed):
 
 def run(ctx):
     import warnings
+    ctx.extra["core_theorems"] = CORE_THEOREMS
     bn = common.pm("bottleneck").bottleneck
     ws = common.pm("wasserstein").wasserstein
     r = ctx.rng
     nmax = ctx.n(60, 300)
-    ntrip = ctx.n(40, 120)
+    ntrip = ctx.n(60, 120)
     hs_cases = []
     with warnings.catch_warnings():
         warnings.simplefilter("ignore")
         for it in range(ntrip):
             mode = ctx.gen.mode()
             big = nmax if (it % 10 == 0) else max(3, nmax // r.choice([1, 2, 4, 10]))
-            if it % 3 == 0:
+            g = 2.0 ** r.choice([-40, -30, -24, -20, -10, 0, 0, 0, 10, 20])   # one scale for the whole triple
+            if it == 0:                             # "hundreds of points" in every run: 100+ points in each diagram
+                X, Y, Z = (gen_dgm(ctx, max(nmax, k), mode, exact_n=True) for k in (110, 105, 100))
+                ctx.count("triples_independent"); ctx.count("triples_100+_points")
+            elif it == 1:
+                X = gen_dgm(ctx, max(nmax, 110), mode, exact_n=True); Y = derive(ctx, X, mode); Z = derive(ctx, Y, mode)
+                ctx.count("triples_related"); ctx.count("triples_100+_points")
+            elif it % 7 == 3:                       # large offset, tiny spread (close points far from the origin)
+                base = gen_dgm(ctx, r.randint(3, max(3, min(big, 40))), mode, exact_n=True)
+                (X, Y, Z), _, _ = c02.offset_family(ctx, base, 3, mode)
+                if r.random() < 0.5:
+                    X, Y = Y, X
+                g = 1.0
+                ctx.count("triples_large_offset_tiny_spread")
+            elif it % 3 == 0:
                 X, Y, Z = (gen_dgm(ctx, big, mode) for _ in range(3))
                 ctx.count("triples_independent")
             else:                                   # related diagrams: shared points, relays, near-copies
@@ -94,7 +131,6 @@ def run(ctx):
                 if r.random() < 0.5:
                     X, Y, Z = Y, X, Z               # X and Z both derived from the middle one
                 ctx.count("triples_related")
-            g = 2.0 ** r.choice([-40, -30, -24, -20, -10, 0, 0, 0, 10, 20])   # one scale for the whole triple
             X, Y, Z = ([[a * g, b * g] for a, b in D] for D in (X, Y, Z))
             ctx.count("scale=2^%d" % int(math.log2(g)))
             nontriv = sum(len(d) >= 3 for d in (X, Y, Z)) >= 2
@@ -149,43 +185,65 @@ def run(ctx):
 
 
 def large_sizes(ctx):
-    """the C01 (and, when available, C02) correspondence repeated at large sizes and on RELATED pairs (shared
-    points, relays, near-copies): the real value vs an optimum whose certificate the Lean-proved checker accepts"""
+    """the C01 and C02 correspondences repeated at large sizes, on RELATED pairs (shared points, relays, near-copies) and
+    independent ones: the real value against an optimum whose certificate a Lean-proved checker accepts —
+    bottleneck: independent exact oracle + `cert.opt` (theorem C01.cert_opt_sound), compared exactly;
+    Wasserstein: the model's Float matrix (`ws.matrix`), scipy as an untrusted hint, exact rational dual potentials,
+    `cert.dual` (theorems C02.dual_cert_sound / dualCheck_sound), compared within c02's tolerance."""
     import warnings
     bn = common.pm("bottleneck").bottleneck
-    try:
-        from . import c01
-    except ImportError:
-        ctx.count("large_sizes_c01_unavailable"); c01 = None
+    ws = common.pm("wasserstein").wasserstein
     r = ctx.rng
-    sizes = [(6, 6), (12, 10), (30, 30), (80, 60)] * ctx.n(3, 6) + ([(150, 150), (150, 10)] if ctx.thorough else [])
+    sizes = [(6, 6), (12, 10), (30, 30), (80, 60)] * ctx.n(3, 6) + ([(150, 150), (150, 10)] if ctx.thorough else [(120, 110)])
     cases, lines = [], []
     for (m, n) in sizes:
-        mode = r.choice(["lattice", "half", "dyadic"])        # exact comparison modes
-        X = gen_dgm(ctx, m, mode)
-        Y = derive(ctx, X, mode) if r.random() < 0.7 else gen_dgm(ctx, n, mode)
-        if r.random() < 0.5:
-            B = X; X = derive(ctx, B, mode); Y = derive(ctx, B, mode)     # both derived from a common middle
-        if c01 is not None:
-            case = {"dgm1": X, "dgm2": Y, "mode": "dyadic"}
-            v, line = c01.truth_for(case)
-            cases.append((case, v)); lines.append(line)
-    if not lines:
-        return
+        mode = r.choice(["lattice", "half", "dyadic"])        # exact comparison modes (bottleneck)
+        X = gen_dgm(ctx, m, mode, exact_n=True)
+        kind = "independent"
+        Y = gen_dgm(ctx, n, mode, exact_n=True)
+        if r.random() < 0.7:
+            Y = derive(ctx, X, mode); kind = "related"
+            if r.random() < 0.5:
+                B = X; X = derive(ctx, B, mode); Y = derive(ctx, B, mode)     # both derived from a common middle
+        case = {"dgm1": X, "dgm2": Y, "mode": "dyadic", "kinds": ["array", "array"]}
+        v, line = c01.truth_for(case)
+        cases.append((case, v, kind)); lines.append(line)
+        lines.append("ws.matrix %s %s" % (common.enc(X), common.enc(Y)))
     answers = common.ask(lines)
+    cert_lines, claims = [], []
+    for k, (case, v, kind) in enumerate(cases):
+        if answers[2 * k] is not True:
+            raise common.HarnessError("cert.opt rejected the certificate of the independent oracle: %r" % (answers[2 * k],))
+        mat = answers[2 * k + 1]
+        if not (isinstance(mat, list) and len(mat) == 3):
+            raise common.HarnessError("ws.matrix answered %r" % (mat,))
+        line, claimed = c02.certificate(None, [[float(x) for x in row] for row in mat[2]])
+        cert_lines.append(line); claims.append(claimed)
+    cert_answers = common.ask(cert_lines)
     with warnings.catch_warnings():
         warnings.simplefilter("ignore")
-        for (case, v), ans in zip(cases, answers):
-            if ans is not True:
-                raise common.HarnessError("cert.opt rejected the certificate of the independent oracle: %r" % (ans,))
+        for (case, v, kind), cans, claimed in zip(cases, cert_answers, claims):
+            bucket = "certified_pairs_%s_size<=%d" % (kind, 10 ** len(str(max(len(case["dgm1"]), len(case["dgm2"]), 1))))
+            ctx.count(bucket)
+            if max(len(case["dgm1"]), len(case["dgm2"])) >= 100:
+                ctx.count("certified_pairs_100+_points")
             code = float(bn(A(case["dgm1"]), A(case["dgm2"])))
             ok = math.isfinite(code) and Fraction(code) == v
             ctx.test("bn.value_is_certified_optimum", ok)
-            ctx.count("certified_pairs_size<=%d" % (10 ** len(str(max(len(case["dgm1"]), len(case["dgm2"]), 1)))))
             if not ok:
                 ctx.violation("bottleneck value %r differs from the certified min-max matching cost %s" % (code, v),
                               {"X": case["dgm1"], "Y": case["dgm2"], "Z": [], "fn": "bn", "laws": ["value_is_certified_optimum"],
                                "certified": str(v)})
+                return
+            opt = c02.checked(cans, claimed)
+            wcode = float(ws(A(case["dgm1"]), A(case["dgm2"])))
+            ok = c02.agree(wcode, opt, c02.scale_of(case))
+            ctx.test("ws.value_is_certified_optimum", ok)
+            if not ok:
+                ctx.violation("wasserstein value %r differs from the certified min-sum matching cost %r (optimum of the model's matrix, "
+                              "dual certificate verified by cert.dual)" % (wcode, float(opt)),
+                              {"X": case["dgm1"], "Y": case["dgm2"], "Z": [], "fn": "ws", "laws": ["value_is_certified_optimum"],
+                               "certified": str(opt)})
                 return
 
 
@@ -209,17 +267,28 @@ def replay(ctx, rep):
 
 
 MANIFEST = {
-    "text": "Proof: every law of the statement is a Lean theorem about the specification values (minimum over all partial matchings) "
-            "for diagrams of ANY size — symmetry, non-negativity, zero on reorderings, invariance under added diagonal points and "
-            "diagonal translation, linear scaling, the value against the empty diagram, bottleneck <= Wasserstein, and BOTH triangle "
-            "inequalities (composition of partial matchings) — first for arbitrary cost systems with a pseudo-metric pair cost and a "
-            "1-Lipschitz diagonal cost, then instantiated with (L-inf,(d-b)/2) and (Euclid,(d-b)/sqrt2) over the reals, and finally "
-            "composed with the C01/C02 main theorems (Props/C07Model.lean) into laws about what the MODELS of persim.bottleneck / "
-            "persim.wasserstein return, for any two oracles/solvers (so across hash seeds): symmetry, triangle, non-negativity. That the code's "
-            "values ARE the specification values is C01/C02; their correspondence is repeated here at sizes up to 150+150 with "
-            "certified optima, and the laws are also run on the real code on triples of up to 300 points under several hash seeds.",
+    "text": "Proof (144 theorems in Props/C07.lean, Props/C07Model.lean and the three lemma files, of which 41 are the core statements: the 8 "
+            "laws x 2 distances + bottleneck_le_wasserstein + the two List.Perm forms for the specification values, and 22 model-level laws "
+            "model_bn_* / model_ws_* / model_bn_le_ws; the rest are facts about the two cost systems, the generic matching laws they "
+            "instantiate and list/index bridges): every law of the statement is a Lean theorem about the specification values (minimum over "
+            "all partial matchings) for diagrams of ANY size — symmetry, non-negativity, zero on reorderings, invariance under added diagonal "
+            "points and diagonal translation, linear scaling, the value against the empty diagram, bottleneck <= Wasserstein, and BOTH "
+            "triangle inequalities (composition of partial matchings) — first for arbitrary cost systems with a pseudo-metric pair cost and "
+            "a 1-Lipschitz diagonal cost, then instantiated with (L-inf,(d-b)/2) and (Euclid,(d-b)/sqrt2) over the reals, and finally composed "
+            "with the C01/C02 main theorems (Props/C07Model.lean) into EVERY law of the statement about what the MODELS of persim.bottleneck / "
+            "persim.wasserstein return, for lists of raw points (non-finite deaths allowed) and any oracles/solvers honouring their contracts "
+            "(two different ones where two runs occur, so across hash seeds): symmetry, triangle, non-negativity, reordering of the inputs "
+            "(List.Perm) leaves the value unchanged and d(X, perm X) = 0, a diagonal point inserted anywhere in either diagram, translation "
+            "along the diagonal, scaling, the value against a side without finite points, bottleneck <= Wasserstein. That the code's values ARE "
+            "the specification values is C01/C02; both correspondences are repeated here on related and independent pairs of exactly m+n "
+            "points — up to 120+110 in the quick tier, 150+150 in the thorough tier — against certified optima (bottleneck: cert.opt, exact; "
+            "Wasserstein: dual certificate of the model's matrix verified by cert.dual), and the laws are run on the real code on triples "
+            "(60 quick, of up to 60 points plus two triples of 100+ points per diagram; 120 thorough, up to 300 points), including 'large "
+            "offset, tiny spread' triples, under several hash seeds.",
     "note": "Trusted: Lean kernel + Mathlib (propext/Classical.choice/Quot.sound); C01/C02 for 'code value = specification value' "
-            "(external solvers hopcroftkarp / scipy LSA are contracts certified per run there); float rounding is outside the theorems "
-            "([T] law stream with stated tolerances).",
-    "technique": "Lean 4 theorems about the matching specification + laws replayed on the real code at large sizes",
+            "(external solvers hopcroftkarp / scipy LSA are contracts certified per run there; re-certified here at the large sizes); float "
+            "rounding is outside the theorems ([T] law stream with stated tolerances: 1e-9*largest |coordinate| for bottleneck, times the number "
+            "of points + 1 for Wasserstein).",
+    "technique": "Lean 4 theorems about the matching specification, composed with the C01/C02 model theorems + laws and certified optima "
+                 "replayed on the real code at large sizes",
 }
